@@ -35,6 +35,7 @@ type StoreCase struct {
 	Type    string          `json:"type"`
 	JSON    json.RawMessage `json:"json"`
 	RawHex  string          `json:"raw_hex"`
+	IsRaw   bool            `json:"is_raw"`
 }
 
 type BankCase struct {
@@ -312,3 +313,4 @@ func NextClock() (int64, bool) {
 	}
 	return 0, false
 }
+func DeclareEmptyStore(name string) {}
